@@ -2,8 +2,8 @@ package main
 
 import (
 	"flag"
-	"go/types"
 	"fmt"
+	"go/types"
 	"os"
 	"regexp"
 	"sort"
@@ -125,6 +125,7 @@ func cmdVerify(args []string) {
 	safety := fs.Bool("safety", false, "treat functions without panics clause as panics never")
 	nocache := fs.Bool("nocache", false, "ignore the verdict cache")
 	all := fs.Bool("all", false, "run all solvers")
+	covers := fs.Bool("covers", false, "vacuity guard: list program points that are provably unreachable")
 	why := fs.String("why", "", "for undischarged obligations matching this regexp: print the path of the candidate countermodel")
 	fs.Parse(args[1:])
 	p := mustLoad()
@@ -150,6 +151,14 @@ func cmdVerify(args []string) {
 		}
 	}
 	fmt.Printf("generated %d obligations for %d functions in %.1fs\n", len(jobs), len(vcs), time.Since(t0).Seconds())
+	if *covers {
+		n, un := coverCheck(vcs, 2*time.Second)
+		fmt.Printf("cover points: %d, unreachable: %d\n", n, len(un))
+		for _, u := range un {
+			fmt.Println("  UNREACHABLE", u, deadReason(u))
+		}
+		return
+	}
 	dischargeAll(jobs, solveOpts{timeout: time.Duration(*timeout) * time.Second, noCache: *nocache, all: *all})
 	counts := map[string]int{}
 	var dumpRe *regexp.Regexp
@@ -180,7 +189,6 @@ func cmdVerify(args []string) {
 	}
 	fmt.Printf("%v  total %.1fs\n", counts, time.Since(t0).Seconds())
 }
-
 
 // explainPath: which CFG edges does the (quantifier-free) candidate countermodel take?
 func explainPath(vc *VC, o *Obligation) {
